@@ -770,4 +770,32 @@ def jsonRead (T : Tables) (R : Rfc3339) (H : Hints) (j : JVal) : Res XItem := do
   let (it, _) ← jDecodeValue T R H (2 * j.size + 2) c (c.tag T)
   pure it
 
+/-! ## 8. the scope of C04 on a tree (what the round-trip theorems and the harness quantify over) -/
+
+def int32Ok (v : Int) : Bool := decide (-2147483648 ≤ v) && decide (v ≤ 2147483647)
+def int64Ok (v : Int) : Bool := decide (-9223372036854775808 ≤ v) && decide (v ≤ 9223372036854775807)
+/-- a KMIP tag: `0 < t < 2^24`. -/
+def tagOk (t : Int) : Bool := decide (0 < t) && decide (t < 16777216)
+
+mutual
+  /-- the hypotheses of C04 on an annotated tree, and nothing else: every tag a KMIP tag, every value in
+      the range of its Go type, every date within years 1..9999 (UTC seconds `minEpoch … maxEpoch`).
+      No condition on which enumeration / mask type a node is written with. -/
+  def inScope : XItem → Bool
+    | .struct t cs => tagOk t && inScopeList cs
+    | .int t v => tagOk t && int32Ok v
+    | .mask t _ v => tagOk t && int32Ok v
+    | .long t v => tagOk t && int64Ok v
+    | .big t _ => tagOk t
+    | .enum t _ v => tagOk t && decide (v < 4294967296)
+    | .bool t _ => tagOk t
+    | .text t _ => tagOk t
+    | .bytes t _ => tagOk t
+    | .date t v => tagOk t && decide (minEpoch ≤ v) && decide (v ≤ maxEpoch)
+    | .interval t v => tagOk t && decide (v < 4294967296)
+  def inScopeList : List XItem → Bool
+    | [] => true
+    | x :: xs => inScope x && inScopeList xs
+end
+
 end Kmip.Lex
